@@ -105,6 +105,9 @@ func c04HashNames(r *Repo) (map[string]string, error) {
 	}
 	out := map[string]string{}
 	for _, f := range fs {
+		if filepath.Base(r.Fset.Position(f.Pos()).Filename) != "hash.go" {
+			continue // only the generated constant block (css.go has pseudo hashes such as zeroAngleFunc)
+		}
 		for _, d := range f.Decls {
 			gd, ok := d.(*ast.GenDecl)
 			if !ok || gd.Tok != token.CONST {
